@@ -65,7 +65,11 @@ def gen(seed, tier):
         if not kinds:
             continue
         kind = r.choice(kinds)
+        if "overlap" in kinds and r.random() < 0.25:
+            kind = r.choice(["overlap", "gap"])      # only targets qualify, so they would be rare otherwise
         fault = {"node": P.names_of(n)[0], "kind": kind}
+        if kind == "rows_outside":
+            fault["row"] = r.choice(["first", "middle", "last"])
         if n["kind"] == "multi":
             fault["output"] = target if target in n["names"] else r.choice(n["names"])
         if n["kind"] == "source":
